@@ -342,7 +342,7 @@ pub fn utils(out: &mut Out, seed: u64, thorough: bool) {
     let mut enc = Encapsulator::new(DefaultCrc {});
     enc.disable_re_use_label();
     ev_cfg(out, &mut enc, Cfg::Disable);
-    let n = if thorough { 300 } else { 60 };
+    let n = if thorough { 2500 } else { 60 };
     let labels = [Label::SixBytesLabel([1, 2, 3, 4, 5, 6]), Label::ThreeBytesLabel([9, 8, 7]), Label::Broadcast];
     // (a) packets emitted by the encapsulator: parse -> description -> generate must reproduce them
     for i in 0..n {
